@@ -682,12 +682,12 @@ def limits_pipeline(run, prop, classes, twin=False, aimd=True, vegas=True):
                 if bad and bad in classes | {"bounds"}:
                     run.report("Vegas: after %s the real limit went to %s where the exact model (and the property) allow at most %s" % (json.dumps(op), m["got_obs"], m["exp_obs"]),
                                {"mismatch": m, "rerun": "bin/check %s" % prop}, {"algo": "vegas", "class": bad})
-    n = 1200 if th else 160
+    n = 1200 if th else 240
     out, _ = run.go("^TestLimitRandom$", env={"VERIF_N": n}, timeout=1200)
     tp = os.path.join(out, "limit_trace.ndjson")
     files = [tp]
     if twin:
-        out2, _ = run.go("^TestLimitTwin$", env={"VERIF_N": 600 if th else 90}, timeout=1200)
+        out2, _ = run.go("^TestLimitTwin$", env={"VERIF_N": 600 if th else 180}, timeout=1200)
         files.append(os.path.join(out2, "twin_trace.ndjson"))
     stats = {"samples": 0, "probes": 0, "drops": 0, "zero_rtt": 0, "runs": 0, "twins": 0, "twins_strict": 0, "by_algo": {}}
     for f in files:
